@@ -99,7 +99,7 @@ class IborCapFloor:
         self.cap_floor_pv = []
 
         self.value_dt = None
-        self.day_counter = None
+        self.day_counter = DayCount(self.dc_type)
 
     ###########################################################################
 
